@@ -555,7 +555,17 @@ def frontier_clauses(n, par, flags, st, rel, time, L, pre, ret, rtg, offer, nonp
                     vid = "frontier.offers_task_with_incomplete_parent.predicted_branch"
                 else:
                     lead = [x for x in ("running", "released", "scheduled", "virtual") if x in bad][0]
-                    vid = "frontier.offers_task_with_incomplete_parent.all_branches.parent_" + lead
+                    anc, todo = set(), list(par[v])
+                    while todo:
+                        a_ = todo.pop()
+                        if a_ not in anc:
+                            anc.add(a_)
+                            todo.extend(par[a_])
+                    if lead == "virtual" and not any(st[a_] == V_ and not par[a_] for a_ in anc):
+                        # no VIRTUAL *source* upstream (a VIRTUAL source has no estimate: a recorded finding): every VIRTUAL
+                        # ancestor has an estimate, so the child was offered on a wrong (stale / too early) estimate
+                        lead = None
+                    vid = "frontier.offers_task_with_incomplete_parent.all_branches." + ("parent_" + lead if lead else "inner_parent_virtual")
                 out.append((vid, "N%d offered with lookahead 0 while parents are %s" % (v, [(p, st[p].name) for p in par[v]])))
         else:
             if s == R_ and rel[v] <= time:
@@ -1298,6 +1308,16 @@ class _Bag:
         return self.n
 
 
+def _uneven_join_with_tail(n, edges):
+    par, chl = rel_maps(n, edges)
+    if sum(1 for v in range(n) if not par[v]) < 2 or any(not par[v] and not chl[v] for v in range(n)):
+        return False
+    depth = {}
+    for v in topo_order(n, edges):
+        depth[v] = 1 + max([depth[p] for p in par[v]], default=0)
+    return any(len(par[v]) >= 2 and chl[v] and len({depth[p] for p in par[v]}) >= 2 for v in range(n))
+
+
 def build_items(pid, tier, seed):
     items = []
     rnd = random.Random(seed)
@@ -1356,6 +1376,11 @@ def build_items(pid, tier, seed):
         notes.append("frontier/releasable: every reachable state of labelled DAGs <=3 x 2 times x lookahead {0,12,1000} x preemption x retraction x "
                      "release_taskgraphs x policies; 4-node %s DAGs: 1/%d of the states (hash-sampled)"
                      % ("labelled" if thorough else "topologically labelled", stride))
+        # 5 nodes: a join whose parents lie at different depths below two or more sources, with a task below the join (the
+        # estimate of the join is raised after the join was already expanded: seed C18-9); no conditional / terminal flags
+        d5u = [e for e in topo_dags(5) if len(e) <= 5 and _uneven_join_with_tail(5, e)]
+        add("states", 5, d5u, "", checks=["frontier"], stride=1 if thorough else 2)
+        notes.append("frontier on %d topologically labelled 5-node DAGs (<=5 edges, >=2 sources, a join with parents at different depths and a child below it): %s of the reachable states" % (len(d5u), "all" if thorough else "1/2"))
         exhaustive = False
     if pid == "C07":
         for shape in SHAPES:
